@@ -339,7 +339,7 @@ func harnessPrim(name string, args []value) (value, bool) {
 	case "vNot":
 		return notVal(args[0]), true
 	case "vShow", "vShowList":
-		return "", true
+		return showConcrete(name, args[0]), true
 	case "vIteStr":
 		c := args[0]
 		if ct, ok := c.(*term); ok {
@@ -365,6 +365,14 @@ func harnessPrim(name string, args []value) (value, bool) {
 	case "vReplaying":
 		return false, true
 	case "vNote":
+		if k, ok := args[0].(string); ok {
+			if v, ok2 := args[1].(string); ok2 && cur != nil && strings.HasPrefix(k, "eq:") {
+				if cur.Notes == nil {
+					cur.Notes = map[string]string{}
+				}
+				cur.Notes[k] = v
+			}
+		}
 		return nil, true
 	case "vStrEq":
 		return binop(token.EQL, args[0], args[1], nil), true
@@ -594,4 +602,31 @@ func strSlice(ss []string) value {
 		out[i] = s
 	}
 	return sliceVal{out, 16}
+}
+
+// vShow / vShowList on concrete values behave as natively (used by the translator
+// validation harness); on symbolic values they yield "" (notes are for the native replay)
+func showConcrete(name string, v value) string {
+	if name == "vShow" {
+		if s, ok := v.(string); ok {
+			return strconv.Quote(s)
+		}
+		return ""
+	}
+	sl, ok := v.(sliceVal)
+	if !ok {
+		return ""
+	}
+	out := "["
+	for i, e := range sl.s {
+		s, ok := e.(string)
+		if !ok {
+			return ""
+		}
+		if i > 0 {
+			out += ", "
+		}
+		out += strconv.Quote(s)
+	}
+	return out + "]"
 }
